@@ -249,3 +249,13 @@ package handler
 //@   ensures [empty-buffer-writes-nothing] ret(Len) == 0 ==> calls(EcbEncrypt) == 0 && calls(io.WriteString) == 0 && calls(WriteHeader) == 0
 //@   ensures [encryption-failure-is-500] calls(EcbEncrypt) == 1 && ret(EcbEncrypt, 1) != nil ==> calls(w.ResponseWriter.WriteHeader, 500) == 1 && calls(io.WriteString) == 0
 //@   ensures [ciphertext-of-the-buffer-written-once] calls(EcbEncrypt) == 1 && ret(EcbEncrypt, 1) == nil ==> arg(codec.EcbEncrypt, 0) == key && arg(codec.EcbEncrypt, 1) == ret(Bytes) && calls(io.WriteString) == 1 && arg(io.WriteString, 1) == ret(EncodeToString) && arg(EncodeToString, 1) == ret(codec.EcbEncrypt, 0) && arg(io.WriteString, 0) == w.ResponseWriter
+
+// checkWriteHeaderCode: exactly the statuses net/http accepts pass (100..999); anything else panics, as in net/http.
+//@ func checkWriteHeaderCode
+//@   prop C02
+//@   opaque Sprintf
+//@   observe Code = code
+//@   replay handler_status_range
+//@   replay-assume code >= 200 && code <= 999
+//@   ensures [every-three-digit-status-accepted] 100 <= code && code <= 999
+//@   panic-ensures [others-refused-as-in-net-http] code < 100 || code > 999
